@@ -19,10 +19,13 @@
 (***************************************************************************)
 EXTENDS Integers, Sequences, FiniteSets, TLC
 
-CONSTANTS Files,     \* sequence of [h |-> 12 or 14, units |-> <<sizes>>]
+CONSTANTS FileSets,  \* sequence of chains; a chain is a sequence of [h |-> 12 or 14, units |-> <<sizes>>]
           BufSize,   \* len(d.bytes.buf) (4096 in the code)
           DataWithErr, \* TRUE: the environment may return the last bytes together with the error
           PreFixChainRule \* TRUE: DecodeChained as it was before the fix (any failure on the size byte of a later file ends the chain silently)
+
+VARIABLE fset        \* index of the chain being read (fixed during a behaviour; Trace_FrameImpl switches it between traces)
+Files == FileSets[fset]
 
 Sum(s) == IF s = << >> THEN 0 ELSE LET RECURSIVE F(_) F(i) == IF i > Len(s) THEN 0 ELSE s[i] + F(i + 1) IN F(1)
 DataLen(k) == Sum(Files[k].units)
@@ -44,11 +47,12 @@ VARIABLES Avail,    \* bytes readable before the end (chosen at Init, then fixed
           files,    \* number of files completed
           result,   \* "run" | "ok" | "err"
           lastreq   \* size of the last Read request and where it started (for NeverPastFrame)
-vars == << Avail, Fault, pc, k, fetched, want, ui, n, buf, ended, files, result, lastreq >>
+vars == << fset, Avail, Fault, pc, k, fetched, want, ui, n, buf, ended, files, result, lastreq >>
 
 Limit == DataLen(k)
 
-Init == /\ Avail \in 0..Total /\ Fault \in BOOLEAN
+Init == /\ fset = 1
+        /\ Avail \in 0..Total /\ Fault \in BOOLEAN
         /\ pc = "size" /\ k = 1 /\ fetched = 0 /\ want = 1 /\ ui = 1 /\ n = 0 /\ buf = 0
         /\ ended = FALSE /\ files = 0 /\ result = "run" /\ lastreq = << 0, 0 >>
 
@@ -66,8 +70,15 @@ Fail == /\ result' = "err" /\ pc' = "done"
 \* io.ReadFull / binary.Read loops (header size byte, header rest, CRC):
 \* an error with fewer bytes than wanted fails; got = want succeeds even if
 \* the error came along (io.ReadFull drops it).
-ReadFullStep(nextpc, onDone(_)) ==
-    \E a \in Answers(want) :
+\* is a an answer the environment may give to Read(req)?
+ValidAnswer(req, a) ==
+    LET left == Avail - fetched IN
+    IF left <= 0 THEN a.got = 0 /\ a.end
+    ELSE \/ (~a.end /\ a.got >= 1 /\ a.got <= req /\ a.got <= left)
+         \/ (DataWithErr /\ a.end /\ left <= req /\ a.got = left)
+
+ReadFullStepA(a, onDone(_)) ==
+        /\ ValidAnswer(want, a)
         /\ lastreq' = << fetched, want >>
         /\ fetched' = fetched + a.got
         /\ ended' = (ended \/ a.end)
@@ -76,13 +87,15 @@ ReadFullStep(nextpc, onDone(_)) ==
            ELSE /\ want' = want - a.got
                 /\ UNCHANGED << pc, k, ui, n, buf, files, result >>
 
-ReadSize == /\ pc = "size"
-            /\ ReadFullStep("hdr", LAMBDA a :
+ReadSizeA(b) ==
+            /\ pc = "size"
+            /\ ReadFullStepA(b, LAMBDA a :
                    /\ pc' = "hdr" /\ want' = Files[k].h - 1
                    /\ UNCHANGED << k, ui, n, buf, files, result >>)
 
-ReadHdr == /\ pc = "hdr"
-           /\ ReadFullStep("unit", LAMBDA a :
+ReadHdrA(b) ==
+           /\ pc = "hdr"
+           /\ ReadFullStepA(b, LAMBDA a :
                   /\ pc' = IF Files[k].units = << >> THEN "crc" ELSE "unit"
                   /\ want' = IF Files[k].units = << >> THEN 2 ELSE Files[k].units[1]
                   /\ ui' = 1 /\ n' = 0 /\ buf' = 0
@@ -99,19 +112,21 @@ Take == /\ pc = "unit" /\ buf > 0
               ELSE /\ want' = want - t /\ ui' = ui /\ pc' = pc
         /\ UNCHANGED << k, fetched, ended, files, result, lastreq >>
 
-Fill == /\ pc = "unit" /\ buf = 0
-        /\ IF n = Limit THEN Fail /\ UNCHANGED << fetched, ended, lastreq >>     \* "data beyond data size"
-           ELSE LET req == IF BufSize < Limit - n THEN BufSize ELSE Limit - n IN
-                \E a \in Answers(req) :
-                    /\ lastreq' = << fetched, req >>
-                    /\ fetched' = fetched + a.got
-                    /\ ended' = (ended \/ a.end)
-                    /\ IF a.got > 0 THEN /\ buf' = a.got      \* n > 0 clears the error of this call
-                                         /\ UNCHANGED << pc, k, want, ui, n, files, result >>
-                       ELSE Fail
+FillReq == IF BufSize < Limit - n THEN BufSize ELSE Limit - n
+FillA(a) ==
+        /\ pc = "unit" /\ buf = 0
+        /\ IF n = Limit THEN Fail /\ UNCHANGED << fetched, ended, lastreq >>     \* "data beyond data size": no Read call
+           ELSE /\ ValidAnswer(FillReq, a)
+                /\ lastreq' = << fetched, FillReq >>
+                /\ fetched' = fetched + a.got
+                /\ ended' = (ended \/ a.end)
+                /\ IF a.got > 0 THEN /\ buf' = a.got      \* n > 0 clears the error of this call
+                                     /\ UNCHANGED << pc, k, want, ui, n, files, result >>
+                   ELSE Fail
 
-ReadCRC == /\ pc = "crc"
-           /\ ReadFullStep("next", LAMBDA a :
+ReadCRCA(b) ==
+           /\ pc = "crc"
+           /\ ReadFullStepA(b, LAMBDA a :
                   /\ files' = files + 1
                   /\ IF k = Len(Files)
                      THEN /\ pc' = "next" /\ k' = k + 1 /\ want' = 1     \* DecodeChained probes for another file
@@ -120,16 +135,25 @@ ReadCRC == /\ pc = "crc"
 
 \* DecodeChained after the last file: binary.Read of the next size byte.
 \* Only a clean EOF (errReadSize) ends the chain silently.
-Probe == /\ pc = "next"
-         /\ \E a \in Answers(1) :
-              /\ lastreq' = << fetched, 1 >>
-              /\ fetched' = fetched + a.got
-              /\ ended' = (ended \/ a.end)
-              /\ pc' = "done"
-              /\ result' = IF a.got = 0 /\ (~Fault \/ PreFixChainRule) THEN "ok" ELSE "err"   \* garbage after the chain, or a fault: error
-              /\ UNCHANGED << k, want, ui, n, buf, files >>
+ProbeA(a) ==
+         /\ pc = "next"
+         /\ ValidAnswer(1, a)
+         /\ lastreq' = << fetched, 1 >>
+         /\ fetched' = fetched + a.got
+         /\ ended' = (ended \/ a.end)
+         /\ pc' = "done"
+         /\ result' = IF a.got = 0 /\ (~Fault \/ PreFixChainRule) THEN "ok" ELSE "err"   \* garbage after the chain, or a fault: error
+         /\ UNCHANGED << k, want, ui, n, buf, files >>
 
-Next == (ReadSize \/ ReadHdr \/ Take \/ Fill \/ ReadCRC \/ Probe) /\ UNCHANGED << Avail, Fault >>
+\* the adversarial environment: any valid answer
+ReadSize == \E a \in Answers(want) : ReadSizeA(a)
+ReadHdr == \E a \in Answers(want) : ReadHdrA(a)
+ReadCRC == \E a \in Answers(want) : ReadCRCA(a)
+Fill == /\ pc = "unit" /\ buf = 0
+        /\ IF n = Limit THEN FillA([got |-> 0, end |-> TRUE]) ELSE \E a \in Answers(FillReq) : FillA(a)
+Probe == \E a \in Answers(1) : ProbeA(a)
+
+Next == (ReadSize \/ ReadHdr \/ Take \/ Fill \/ ReadCRC \/ Probe) /\ UNCHANGED << fset, Avail, Fault >>
 
 Spec == Init /\ [][Next]_vars /\ WF_vars(Next)
 
